@@ -221,7 +221,7 @@ impl Network {
     }
 
     pub fn transport(&self) -> SimTransportB {
-        SimTransportB { net: self.clone() }
+        SimTransportB { net: self.clone(), fixed: None }
     }
 
     /// Open a raw connection to an origin (for hand-written peers).
@@ -292,6 +292,9 @@ pub enum SimDialError {
 #[derive(Clone)]
 pub struct SimTransportB {
     pub net: Network,
+    /// connect here whatever the request URI says (a URI-agnostic transport, like a Unix socket
+    /// or duplex transport would be)
+    pub fixed: Option<String>,
 }
 
 impl tower::Service<http::request::Parts> for SimTransportB {
@@ -305,7 +308,10 @@ impl tower::Service<http::request::Parts> for SimTransportB {
 
     fn call(&mut self, parts: http::request::Parts) -> Self::Future {
         let net = self.net.clone();
-        let key = origin_key(&parts.uri);
+        let key = match &self.fixed {
+            Some(o) => origin_key(&o.parse::<http::Uri>().expect("fixed origin")),
+            None => origin_key(&parts.uri),
+        };
         let tag = parts.extensions.get::<ReqTag>().map(|t| t.0);
         let (id, latency, fate) = {
             let mut n = net.inner.lock();
@@ -589,6 +595,14 @@ pub async fn handle(ctx: HandlerCtx, conn: u32, mut req: http::Request<hyperdriv
         *resp.status_mut() = http::StatusCode::SWITCHING_PROTOCOLS;
         resp.headers_mut().insert(http::header::CONNECTION, "upgrade".parse().unwrap());
         resp.headers_mut().insert(http::header::UPGRADE, "sim".parse().unwrap());
+        resp.headers_mut().insert("x-req-id", id.to_string().parse().unwrap());
+        ctx.log.lock().seen[idx].responded_ms = Some(ctx.net.now_ms());
+        return Ok(resp);
+    }
+    if req.method() == http::Method::CONNECT {
+        // no tunnelling in this handler: an ordinary refusal keeps HTTP/1 framing simple
+        let mut resp = http::Response::new(ChunkBody::default());
+        *resp.status_mut() = http::StatusCode::METHOD_NOT_ALLOWED;
         resp.headers_mut().insert("x-req-id", id.to_string().parse().unwrap());
         ctx.log.lock().seen[idx].responded_ms = Some(ctx.net.now_ms());
         return Ok(resp);
